@@ -41,7 +41,7 @@ OPENS = ['ok', 'refuse', 'status401', 'status500', 'garbage', 'empty',
          'nonopen', 'ws-status403']
 TRANSPORTS = ['polling', 'websocket', 'upgrade']
 PROBES = ['ok', 'wrong', 'silent', 'close', 'refuse', 'upgrade-write-fails',
-          'status403']
+          'status403', 'garbage', 'empty']
 ENDERS = ['server-close', 'silence', 'drop', 'post-fail', 'client-main',
           'client-in-message', 'client-in-connect', 'client-in-disconnect',
           'client-abort', 'write-dead-then-client', 'client-during-post',
@@ -396,7 +396,7 @@ def run_case(rec, case):
     # needs to call the client from inside a handler; the legacy disconnect
     # handler without a reason argument (its reason is then not observable)
     hooks = any(c[3].startswith('client-in-') for c in case['cycles'])
-    plain = kind == 'A' and not hooks and rng.random() < 0.4
+    plain = kind in 'AR' and not hooks and rng.random() < 0.4
     legacy = rng.random() < 0.25
     case['_handlers'] = {'plain': plain, 'legacy_disconnect': legacy}
     if plain or legacy:
@@ -415,7 +415,8 @@ def run_case(rec, case):
                for c in case['cycles'][:state['cyc'] + 1]):
             key = 'client-disconnect-in-connect-handler'
         rec.viol(key, msg + ' | client=%s handlers=%r cycles=%r' % (
-            'Client' if kind == 'T' else 'AsyncClient',
+            'Client' if kind == 'T' else 'AsyncClient' if kind == 'A' else
+            'AsyncClient over a real aiohttp.ClientSession',
             case.get('_handlers'), case['cycles']), case)
     try:
         idle_noops(rec, w, V)
@@ -510,8 +511,10 @@ def plan(tier, seed):
                 for e in ENDERS:
                     cells.append((o, t, p, e))
     good = [c for c in cells if c[0] == 'ok']
-    for kind in 'TA':
-        scheds = [0] if kind == 'A' else (
+    # R = the asyncio client over a REAL aiohttp.ClientSession (in-memory
+    # pipes to an HTTP/1.1 + RFC 6455 front-end of the scripted server)
+    for kind in 'TAR':
+        scheds = [0] if kind in 'AR' else (
             [0, 1 + seed, 2 + seed] if tier == 'quick' else
             [0] + [seed * 1000 + k for k in range(1, 100)])
         for sc in scheds:
